@@ -93,3 +93,24 @@ pub fn good_narrow(secs: i64, nanos: i32) -> Option<i32> {
     }
     Some(days as i32)
 }
+
+/// must NOT be reported (lossy narrowing): the range test is stored in a local before it is branched on (`a && b`
+/// compiles to branches that assign the flag).
+pub fn good_flag(x: f64) -> Option<i32> {
+    let within = -2_147_483_648.0 <= x && x <= 2_147_483_647.0;
+    if within {
+        Some(x as i32)
+    } else {
+        None
+    }
+}
+
+/// must NOT be reported: the same with integers and an addition.
+pub fn good_flag_int(year: i32, years: i32) -> Option<i32> {
+    let small = -300_000 <= year && year <= 300_000 && -1_000_000 <= years && years <= 1_000_000;
+    if small {
+        Some(year + years)
+    } else {
+        None
+    }
+}
